@@ -138,6 +138,17 @@ def check(run, prog, tier):
                "relates filter and found service with Service.matches_service" if ok else
                f"uses {[e.targets[0].name for e in preds] or 'no matching predicate'}; the notify / catch-up / found paths must agree on matches_service")
 
+    # ------------------------------------------------------------------ K1 what "the same service instance" means
+    # found services are keyed by the Service built from the offer: two offers of one instance (same ids and versions) must
+    # hit the same record whatever options they carry, or the second one is announced as a new service while the first lives
+    SVC_ = "config.Service"
+    cmpf = {f.name for f in prog.all_fields(SVC_) if f.compare}
+    must = {"service_id", "instance_id", "major_version", "minor_version"}
+    okk = must <= cmpf and not (cmpf & {"options_1", "options_2"}) and prog.cls(SVC_).dataclass_frozen
+    run.ob("K1", f"{SVC_}:identity-fields", okk, loc(cx.m(SVC_, "from_offer_entry"), prog.cls(SVC_).node),
+           f"service descriptions compare (and hash) by {sorted(cmpf)}" + ("" if okk else
+           "; identity must be the ids and versions and must not include the options (frozen, hashable): a re-offer with other options would be a second record"))
+
     # ------------------------------------------------------------------ F2 fan-out completeness and arguments
     fanout(run, prog, cx, n_off, n_stp)
 
